@@ -68,6 +68,26 @@ def code_lines(path):
     return lines, out
 
 
+def simple_stmt(l):
+    s = l.strip()
+    return s.endswith(';') and s.count('(') == s.count(')') and s.count('{') == s.count('}') \
+        and not s.startswith(('use ', 'pub ', 'type ', 'const ', 'static ', 'fn ', 'unsafe impl', 'impl', '//', '#['))
+
+
+def gen_swaps(files):
+    """third generation: order of two adjacent simple statements exchanged"""
+    muts = []
+    for f in files:
+        p = os.path.join(REPO, f)
+        lines, code = code_lines(p)
+        idx = dict(code)
+        for i, l in code:
+            if i + 1 in idx and simple_stmt(l) and simple_stmt(idx[i + 1]) \
+                    and len(l) - len(l.lstrip()) == len(idx[i + 1]) - len(idx[i + 1].lstrip()) and l != idx[i + 1]:
+                muts.append({'file': f, 'line': i, 'kind': 'swap', 'old': l, 'new': idx[i + 1] + '\n' + l, 'span': 2})
+    return muts
+
+
 def gen_mutants(files):
     muts = []
     for f in files:
@@ -171,7 +191,7 @@ def main():
     jobs = int(sys.argv[sys.argv.index('--jobs') + 1]) if '--jobs' in sys.argv else 6
     out = sys.argv[sys.argv.index('--out') + 1] if '--out' in sys.argv else os.path.join(VERIF, '.work', 'sweep.jsonl')
     do_tests = '--tests' in sys.argv
-    muts = gen_mutants(files)
+    muts = gen_swaps(files) if '--swaps' in sys.argv else gen_mutants(files)
     if '--limit' in sys.argv:
         import random
         random.seed(1)
